@@ -217,7 +217,7 @@ def stack_programs(tier, rng):
         P.append(reader(k))
     P.append(array_ops(5))
     # a few random knob values (seeded)
-    for _ in range(4 if not thorough else 16):
+    for _ in range(4 if not thorough else 48):
         f = rng.choice([rec_plain, rec_locals, wide_record, wide_array, wide_call, nested_args, print_deep, lets,
                         wide_tuple_pipe, enum_match])
         hi = 40 if not thorough else 150
